@@ -41,7 +41,7 @@ Proof. exact reassembly_exact. Qed.
 Print Assumptions C07_reassembly_exact.
 
 (** ... and every data path of the current code is such a path. *)
-Theorem C07_current_paths_exact : forall pa, In pa [P_meshconn; P_exit; P_shellpty; P_shellout; P_file] ->
+Theorem C07_current_paths_exact : forall pa, In pa [P_meshconn; P_exit; P_shellpty; P_shellout; P_shellin; P_file] ->
   forall k blocks eofd ctr expect, expect <= ctr ->
   exists o, run pa k ctr blocks eofd = Some o /\ o_error o = false /\
     Forall (fun f => blob_size f <= max_payload) (o_frames o) /\
@@ -85,6 +85,16 @@ Theorem C07_refuted_shell_pre_fix : exists b : bytes,
   end.
 Proof. exact shell_pre_fix_refuted. Qed.
 Print Assumptions C07_refuted_shell_pre_fix.
+
+(** Shell stdin as it was before the repair (no chunking): a STDIN message
+    with a 16356-byte payload cannot be framed; nothing is sent or delivered. *)
+Theorem C07_refuted_shell_stdin_pre_fix :
+  match run P_shellin_pre_fix 1 0 [block_of 16356] false with
+  | Some o => o_frames o = [] /\ o_error o = true /\ r_out (receive P_shellin_pre_fix 1 0 (o_frames o)) = []
+  | None => False
+  end.
+Proof. exact shellin_pre_fix_refuted. Qed.
+Print Assumptions C07_refuted_shell_stdin_pre_fix.
 
 (** What pins that defect: on ANY path with a positive buffer (also the old
     shell paths) the stream is exact as long as every block, once framed and
